@@ -259,3 +259,144 @@ Proof.
   destruct (INV (length v) (le_n _)) as [_ N]. cbv zeta in N. rewrite N.
   replace (l <? length v) with true by (symmetry; apply Nat.ltb_lt; lia). reflexivity.
 Qed.
+
+(* ---- mixed vector-scalar forms are the vector-vector forms on the broadcast scalar ---- *)
+Lemma c09_map2_bcast_r : forall X Y Z (f : X -> Y -> Z) v s, c09_map2 f v (c09_bcast (length v) s) = c09_map_vs f v s.
+Proof. unfold c09_bcast, c09_map_vs. induction v; simpl; intros; auto. now rewrite IHv. Qed.
+Lemma c09_map2_bcast_l : forall X Y Z (f : X -> Y -> Z) s w, c09_map2 f (c09_bcast (length w) s) w = c09_map_sv f s w.
+Proof. unfold c09_bcast, c09_map_sv. induction w; simpl; intros; auto. now rewrite IHw. Qed.
+
+Lemma P_scalar_forms_are_broadcast : forall (X Y Z : Type) (f : X -> Y -> Z) (g : X -> Y -> X) (v : list X) (w : list Y) (sx : X) (sy : Y),
+  c09_map_vs f v sy = c09_map2 f v (c09_bcast (c09_lanes v) sy) /\
+  c09_map_sv f sx w = c09_map2 f (c09_bcast (c09_lanes w) sx) w /\
+  c09_assign_vs g v sy = c09_assign_vv g v (c09_bcast (c09_lanes v) sy).
+Proof.
+  intros. unfold c09_lanes, c09_assign_vs, c09_assign_vv. repeat split.
+  - now rewrite c09_map2_bcast_r.
+  - now rewrite c09_map2_bcast_l.
+  - now rewrite c09_map2_bcast_r.
+Qed.
+
+(* ---- cond(bool, ...), mask(), maskOr / maskAnd, implCast lane by lane ---- *)
+Lemma P_interface_lanes : forall (X Y : Type) (dx : X) (dy : Y) (nx : X -> bool) (ny : Y -> bool) (v : list X) (w : list Y) (a b : list X) (m : bool) (S l : nat),
+  length v = S -> length w = S -> l < S ->
+  c09_lane dx l (c09_cond_bool m a b) = (if m then c09_lane dx l a else c09_lane dx l b) /\
+  c09_lanes (c09_mask nx v) = S /\ c09_lane false l (c09_mask nx v) = nx (c09_lane dx l v) /\
+  c09_lanes (c09_maskor nx ny v w) = S /\ c09_lane false l (c09_maskor nx ny v w) = nx (c09_lane dx l v) || ny (c09_lane dy l w) /\
+  c09_lanes (c09_maskand nx ny v w) = S /\ c09_lane false l (c09_maskand nx ny v w) = nx (c09_lane dx l v) && ny (c09_lane dy l w) /\
+  c09_lane dx l (c09_implcast dx S v) = c09_lane dx l v.
+Proof.
+  intros X Y dx dy nx ny v w a b m S l Hv Hw Hl. unfold c09_lane, c09_lanes, c09_cond_bool, c09_maskor, c09_maskand, c09_mask, c09_implcast.
+  assert (E1 : forall l, l < S -> nth l (map nx v) false = nx (nth l v dx)).
+  { intros. rewrite nth_indep with (d' := nx dx) by (rewrite map_length; lia). apply map_nth. }
+  assert (E2 : forall l, l < S -> nth l (map ny w) false = ny (nth l w dy)).
+  { intros. rewrite nth_indep with (d' := ny dy) by (rewrite map_length; lia). apply map_nth. }
+  repeat split.
+  - now destruct m.
+  - now rewrite map_length.
+  - now apply E1.
+  - rewrite c09_map2_length, !map_length. lia.
+  - rewrite c09_map2_nth with (dx := false) (dy := false) by (rewrite map_length; lia). now rewrite E1, E2.
+  - rewrite c09_map2_length, !map_length. lia.
+  - rewrite c09_map2_nth with (dx := false) (dy := false) by (rewrite map_length; lia). now rewrite E1, E2.
+  - now rewrite c09_tab_nth.
+Qed.
+
+(* ---- nested SIMD: every operator / reduction on LoopSIMD<LoopSIMD<T,m>,S> is the flat one on the S*m lanes in memory order ---- *)
+Lemma c09_nested_map2_concat : forall X Y Z (f : X -> Y -> Z) v w, Forall2 (fun a b => length a = length b) v w ->
+  concat (c09_nested_map2 f v w) = c09_map2 f (concat v) (concat w).
+Proof.
+  intros X Y Z f. unfold c09_nested_map2. induction 1 as [|a b v w E F IH]; simpl; auto.
+  rewrite IH. clear -E. revert b E. induction a; destruct b; simpl; intros; try discriminate; auto.
+  injection E as E. now rewrite IHa.
+Qed.
+
+Lemma c09_anytrue_app : forall a b, c09_anytrue (a ++ b) = c09_anytrue a || c09_anytrue b.
+Proof. intros. unfold c09_anytrue. rewrite !c09_anytrue_acc. simpl. now rewrite existsb_app. Qed.
+Lemma c09_alltrue_app : forall a b, c09_alltrue (a ++ b) = c09_alltrue a && c09_alltrue b.
+Proof. intros. unfold c09_alltrue. rewrite !c09_alltrue_acc. simpl. now rewrite forallb_app. Qed.
+
+Lemma P_nested_ops : forall (X Y Z : Type) (f : X -> Y -> Z) (d : X) (m : nat) (v : list (list X)) (w : list (list Y)) (k : list (list bool)),
+  Forall2 (fun a b => length a = length b) v w -> (forall x, In x v -> length x = m) ->
+  concat (c09_nested_map2 f v w) = c09_map2 f (concat v) (concat w) /\
+  c09_nested_all_lanes d m v = concat v /\
+  c09_nested_anytrue k = c09_anytrue (concat k) /\
+  c09_nested_alltrue k = c09_alltrue (concat k) /\
+  c09_nested_lanes (length v) m = length (concat v).
+Proof.
+  intros X Y Z f d m v w k F Hm.
+  assert (L : length (concat v) = length v * m).
+  { clear F. induction v; simpl; auto. rewrite app_length, IHv by (intros; apply Hm; simpl; auto). rewrite (Hm a) by (simpl; auto). lia. }
+  repeat split.
+  - now apply c09_nested_map2_concat.
+  - unfold c09_nested_all_lanes. apply nth_ext with (d := d) (d' := d).
+    + rewrite c09_tab_length. unfold c09_nested_lanes. lia.
+    + intros n Hn. rewrite c09_tab_length in Hn. rewrite c09_tab_nth by assumption. now apply P_nested_lane.
+  - unfold c09_nested_anytrue. assert (G : forall acc, fold_left (fun out mi => out || c09_anytrue mi) k acc = acc || c09_anytrue (concat k)).
+    { induction k as [|a k IH]; simpl; intros. - unfold c09_anytrue. simpl. now rewrite orb_false_r.
+      - rewrite IH, c09_anytrue_app. now rewrite orb_assoc. }
+    now rewrite G.
+  - unfold c09_nested_alltrue. assert (G : forall acc, fold_left (fun out mi => out && c09_alltrue mi) k acc = acc && c09_alltrue (concat k)).
+    { induction k as [|a k IH]; simpl; intros. - unfold c09_alltrue. simpl. now rewrite andb_true_r.
+      - rewrite IH, c09_alltrue_app. now rewrite andb_assoc. }
+    now rewrite G.
+  - unfold c09_nested_lanes. lia.
+Qed.
+
+(* broadcast into a nested type (LoopSIMD(Scalar<T> i): fill(i), recursively): all S*m lanes are the scalar *)
+Lemma P_nested_bcast : forall (X : Type) (S m : nat) (x : X), concat (c09_bcast S (c09_bcast m x)) = c09_bcast (S * m) x.
+Proof. intros. unfold c09_bcast. induction S; simpl; auto. rewrite IHS. now rewrite repeat_app. Qed.
+
+(* ---- horizontal max / min of defaults.hh ---- *)
+Lemma c09_hmax_fold_in : forall X (lt : X -> X -> bool) l m, In (fold_left (fun m x => if lt m x then x else m) l m) (m :: l).
+Proof.
+  induction l; simpl; intros; auto. destruct (IHl (if lt m a then a else m)) as [E|I]; auto.
+  rewrite <- E. destruct (lt m a); auto.
+Qed.
+
+(* the result is one of the lanes; and when `<` behaves like a strict weak order on the lanes (no NaN) no lane is greater.
+   With NaN lanes only the fold itself (the model) characterises the result: C09_example_hmax_nan *)
+Lemma c09_hmax_fold_max : forall X (lt : X -> X -> bool),
+  (forall a b c, lt a b = false -> lt a c = true -> lt c b = false) -> (forall a, lt a a = false) ->
+  forall l m (Q : X -> Prop), (forall x, Q x -> lt m x = false) ->
+    let r := fold_left (fun m x => if lt m x then x else m) l m in
+    (forall x, Q x -> lt r x = false) /\ (forall x, In x l -> lt r x = false).
+Proof.
+  intros X lt Htr Hirr. induction l as [|y l IH]; simpl; intros m Q HQ.
+  - split; auto. intros x [].
+  - set (m' := if lt m y then y else m).
+    assert (HQ' : forall x, (Q x \/ x = y) -> lt m' x = false).
+    { intros x [Hx|Hx]; unfold m'; destruct (lt m y) eqn:E.
+      - apply Htr with (a := m); auto.
+      - auto.
+      - subst x. apply Hirr.
+      - subst x. exact E. }
+    destruct (IH m' (fun x => Q x \/ x = y) HQ') as [A B]. split.
+    + intros x Hx. apply A. auto.
+    + intros x [Hx|Hx]; [apply A; auto | apply B; auto].
+Qed.
+
+Lemma P_hmax : forall (X : Type) (lt : X -> X -> bool) (d : X) (v : list X), v <> [] ->
+  In (c09_hmax lt d v) v /\
+  ((forall a b c, lt a b = false -> lt a c = true -> lt c b = false) -> (forall a, lt a a = false) ->
+   forall x, In x v -> lt (c09_hmax lt d v) x = false).
+Proof.
+  intros X lt d v Hne. destruct v as [|a v]; [congruence|]. unfold c09_hmax. simpl. split.
+  - apply c09_hmax_fold_in.
+  - intros Htr Hirr x Hx.
+    destruct (c09_hmax_fold_max X lt Htr Hirr v a (fun x => x = a)) as [A B].
+    + intros y Hy. subst y. apply Hirr.
+    + destruct Hx as [E|I]; [apply A; auto | apply B; auto].
+Qed.
+
+(* min(v): the same loop with the comparison turned round *)
+Lemma P_hmin_is_hmax : forall (X : Type) (lt : X -> X -> bool) (d : X) (v : list X),
+  c09_hmin lt d v = c09_hmax (fun a b => lt b a) d v.
+Proof. reflexivity. Qed.
+
+Lemma P_horizontal_max_min : forall (X : Type) (lt : X -> X -> bool) (d : X) (v : list X), v <> [] ->
+  In (c09_hmax lt d v) v /\
+  ((forall a b c, lt a b = false -> lt a c = true -> lt c b = false) -> (forall a, lt a a = false) ->
+   forall x, In x v -> lt (c09_hmax lt d v) x = false) /\
+  c09_hmin lt d v = c09_hmax (fun a b => lt b a) d v.
+Proof. intros X lt d v H. destruct (P_hmax X lt d v H) as [A B]. exact (conj A (conj B (P_hmin_is_hmax X lt d v))). Qed.
